@@ -1009,6 +1009,24 @@ for _tier in _R10_FLOORS:
     FLOORS[_tier]['monitors'].update(_R10_FLOORS[_tier]['monitors'])
     FLOORS[_tier]['counters'].update(_R10_FLOORS[_tier]['counters'])
 
+# round 11 (kind 'handout': long texts + caller-changed helper results): ~50% of the minimum over quick seeds 0-3; the
+# thorough workload is 58 times the quick one, its floors are the quick ones x 25
+_R11_QUICK = {
+    'monitors': {'M.handout': 120, 'M.handout.doc': 200, 'M.handout.helper': 450, 'M.handout.kept': 330,
+                 'M.handout.value': 6600},
+    'counters': {'handout:mutations': 280, 'handout:reparses': 50, 'handout:helper:parse_lines': 160,
+                 'handout:helper:parse': 50, 'handout:helper:format': 35, 'handout:helper:format_lines': 34,
+                 'handout:helper:lic_from_str': 45, 'handout:helper:lic_roundtrip': 45, 'handout:helper:lic_to_str': 35,
+                 'handout:mut:append': 26, 'handout:mut:clear': 26, 'handout:mut:del0': 26, 'handout:mut:extend': 26,
+                 'handout:mut:insert': 26, 'handout:mut:pop': 26, 'handout:mut:reverse': 26, 'handout:mut:setitem': 26,
+                 'handout:mut:slice': 26, 'handout:mut:sort': 26, 'handout:mut:upper': 26,
+                 'handout:text-size:2k': 125, 'handout:text-size:4k': 165, 'handout:text-size:16k': 70,
+                 'handout:used-text:2k': 70, 'handout:used-text:4k': 85, 'handout:used-text:16k': 33,
+                 'handout:doc-size:4k': 60, 'handout:doc-size:16k': 85, 'handout:doc-size:64k+': 34}}
+for _grp in ('monitors', 'counters'):
+    FLOORS['quick'][_grp].update(_R11_QUICK[_grp])
+    FLOORS['thorough'][_grp].update(dict((k, v * 25) for k, v in _R11_QUICK[_grp].items()))
+
 # ---------------------------------------------------------------------------
 # domain predicates (shared by generator, shrinker and replay)
 
@@ -4910,6 +4928,7 @@ def gen_ho_text(r, size=None):
                     + r.choice(HO_TAILS))
     if unit[0] == '' or not unit[0].strip():
         unit[0] = 'x'
+    unit = [l if l.strip() != '.' else l + 'x.' for l in unit]      # a lone '.' is outside the stated domain
     num = 1 if r.random() < 0.6 else 0
     per = sum(len(l) + 2 for l in unit) + (4 if num else 0)
     target = r.randint(lo, hi)
